@@ -357,7 +357,7 @@ func run(c *mon.Ctx) {
 			timeCase(c, time.Unix(sec, int64(ns)).UTC(), fmt.Sprintf("boundary/sec=%d/ns=%d", sec, ns))
 		}
 	})
-	c.Stream("time-random", c.N(2000, 4000000), func(i int, r *gen.Rand) {
+	c.Stream("time-random", c.N(2000, 40000000), func(i int, r *gen.Rand) {
 		for k := 0; k < 50; k++ {
 			sec := lo.Unix() + int64(r.Uint64()%uint64(span))
 			ns := r.Intn(1000000000)
